@@ -1,0 +1,29 @@
+//go:build verif
+
+package toxics
+
+import "time"
+
+// Hooks for the verification harness (/verif). Compiled only with -tags verif; add-only.
+
+// VerifChunk exposes SlicerToxic.chunk for the direct differential check of the extracted function.
+func (t *SlicerToxic) VerifChunk(start, end int) []int { return t.chunk(start, end) }
+
+// VerifDelay exposes LatencyToxic.delay.
+func (t *LatencyToxic) VerifDelay() time.Duration { return t.delay() }
+
+// VerifClosed reports whether the stub has been closed.
+func (s *ToxicStub) VerifClosed() bool { return s.Closed() }
+
+// VerifRunning reports whether a toxic is currently piping on the stub (Run has not returned).
+func (s *ToxicStub) VerifRunning() bool {
+	if s.running == nil {
+		return false
+	}
+	select {
+	case <-s.running:
+		return false
+	default:
+		return true
+	}
+}
